@@ -130,7 +130,11 @@ def run(ctx):
     # ---- tie: phase models vs real intermediate texts, all inputs (no token marks needed)
     r_tr = dict(zip(ok, F.garden_batch(ctx, ["fmt_trace " + hx[i] for i in ok])))
     fc_idx = [i for i in ok if r_tr[i] and r_tr[i].startswith("OK ")]
-    r_fc = dict(zip(fc_idx, F.model_batch(ctx, ["fmt_check %s (marks_wrap) (marks_spans)" % r_tr[i][3:] for i in fc_idx])))
+    tt = {i: F.trace_texts(r_tr[i]) for i in fc_idx}
+    idx_ml = [i for i in fc_idx if "indent" in tt[i] and F.line_starts_in_string(unhex(tt[i]["indent"]))]
+    r_lex_indent = dict(zip(idx_ml, F.garden_batch(ctx, ["lex " + tt[i]["indent"] for i in idx_ml])))
+    r_fc = dict(zip(fc_idx, F.model_batch(ctx, ["fmt_check %s (marks_wrap) (marks_spans) (marks_indent %s)" % (
+        r_tr[i][3:], F.lex_spans(r_lex_indent.get(i, ""))) for i in fc_idx])))
     n_panic_model = 0
     for i in fc_idx:
         fc = r_fc[i] or ""
@@ -142,7 +146,7 @@ def run(ctx):
             ctx.disagree("format phase model `spans` (model panics, implementation returned)", items[i][1], fc, "returned")
             continue
         for ph in ("spans", "indent", "blanks", "final"):
-            if "(%s eq)" % ph not in fc:
+            if "(%s eq)" % ph not in fc and not (ph == "blanks" and "(blanks eqfix)" in fc):
                 ctx.disagree("format phase model `%s`" % ph, items[i][1], fc, "real intermediate text (fmt_trace)")
     ctx.cov["phase_model_runs"] = len(fc_idx)
 
